@@ -1,39 +1,314 @@
-"""Checks of the sequential family."""
+"""Checks of the sequential family: one generic pipeline, one list of plans per property and tier."""
 import json, random
 from vlib import *
 from seqfam import *
 
 CHECKS = {}
 
-NONTRIVIAL_STORED = lambda e: e.get("e") == "update" and e.get("req", {}).get("auth") == "good" and e.get("v") not in ("UnknownLog",)
+
+def good_known(e):
+    return e.get("e") == "update" and e.get("req", {}).get("auth") == "good" and e.get("v") != "UnknownLog"
 
 
-def c09(work, tier, seed, replay):
-    rep = Report("C09", tier, seed, "model_checking")
-    rng = random.Random(seed)
-    if tier == "quick":
-        ms, stores, embeds = 5, ["inmem"], ["id", "huge"]
+def any_update(e):
+    return e.get("e") == "update"
+
+
+def refusal(e):
+    return e.get("e") == "update" and e.get("v") != "Accept"
+
+
+def accept(e):
+    return e.get("e") == "update" and e.get("v") == "Accept"
+
+
+def honest_req(state, n):
+    """the honest growth / refresh request from abstract stored value `state` to size n (None if n is smaller)"""
+    if state.get("none"):
+        old, pf = 0, {"k": "empty"}
     else:
-        ms, stores, embeds = 17, ["inmem", "sqlmem"], ["id", "pow2", "mixed", "huge"]
-    # one-step model from every stored value: (stored, submitted, old) in (0..ms)^3 x roots x proofs
+        if n < state["n"]:
+            return None
+        old = state["n"]
+        pf = {"k": "empty"} if (state["n"] == n or state["n"] == 0) else {"k": "right", "b": 0, "m": state["n"], "n": n}
+    return {"auth": "good", "old": old, "b": 0, "n": n, "extra": 0, "stale": 0, "ext": 0, "pf": pf}
+
+
+def probe_runs(c, base_steps, final, prefix, counter):
+    runs = []
+    for l in sorted(c["Logs"]):
+        st = final[l]
+        if not (st.get("none") or st["b"] == 0):
+            continue
+        for n in range(c["MaxSize"] + 1):
+            if honest_req(st, n):
+                # the driver computes the honest request from the OBSERVED stored state, so the probe stays
+                # honest even when the implementation has drifted from the model on the way here
+                counter[0] += 1
+                runs.append({"id": "%s%d" % (prefix, counter[0]), "steps": base_steps + [{"op": "probe", "log": l, "n": n}]})
+    return runs
+
+
+class Plan:
+    def __init__(self, name, c, spec="Spec", edges=True, nwalks=0, depth=20, stores=("inmem",), embeds=("id",), http=False,
+                 keyof=None, probes=False, want=None, extra_runs=None, max_edges=None, reads=False):
+        self.__dict__.update(locals())
+
+
+def tagname(s):
+    return "".join(ch if ch.isalnum() else "_" for ch in s)
+
+
+def make_check(prop, plans_of, rule, nontrivial, level="model_checking", assumptions=(), post=None):
+    def check(work, tier, seed, replay):
+        rep = Report(prop, tier, seed, level)
+        rng = random.Random(seed)
+        for pl in plans_of(tier):
+            c = pl.c
+            r, edges = model_check(work, rep, pl.name, c, spec=pl.spec)
+            g = Graph(edges)
+            init = {l: {"none": True} for l in sorted(c["Logs"])}
+            runs = []
+            if pl.edges:
+                es = edges
+                if pl.max_edges and len(es) > pl.max_edges:
+                    es = rng.sample(es, pl.max_edges)
+                    rep.cov["exhaustive"] = False
+                runs += runs_from_edges(es, c["NWitKeys"])
+            wk = walks(g, init, pl.nwalks, pl.depth, rng, want=pl.want) if pl.nwalks else []
+            if pl.reads:
+                for run, _ in wk:
+                    st2 = []
+                    for s_ in run["steps"]:
+                        st2.append(s_)
+                        if s_["op"] == "update" and rng.random() < 0.5:
+                            st2.append({"op": "get", "log": s_["log"]})
+                        if rng.random() < 0.2:
+                            st2.append({"op": "getlogs"})
+                    run["steps"] = st2
+            runs += [run for run, _ in wk]
+            if pl.probes:
+                cnt = [0]
+                paths = g.shortest_paths(init)
+                states = g.states()
+                states[key(init)] = init
+                for k, path in paths.items():
+                    runs += probe_runs(c, [act_step(e["act"]) for e in path], states[k], "p", cnt)
+                for run, final in wk:
+                    runs += probe_runs(c, run["steps"], final, "wp", cnt)
+            if pl.extra_runs:
+                runs += pl.extra_runs(c, g, rng)
+            trace, runs_path = execute(work, rep, c, runs, list(pl.stores), list(pl.embeds), seed, http=pl.http, keyof=pl.keyof, tag=tagname(pl.name))
+            events = index_trace(trace)
+            fails = judge_chunks(work, rep, c, trace, events)
+            count_events(rep, events, nontrivial)
+            settle(rep, prop, fails, events, c)
+            if post:
+                post(rep, pl, events)
+            picks = [e for e in events if nontrivial(e)]
+            for e in picks[:2]:
+                rep.sample(e)
+            rep.cov.setdefault("plans", []).append({"plan": pl.name, "runs": len(runs), "events": len(events), "stores": list(pl.stores),
+                                                    "embeddings": list(pl.embeds), "http": pl.http})
+            os.remove(trace)
+        finish_counts(rep)
+        rep.cov["rule"] = rule
+        rep.cov.setdefault("exhaustive", True)
+        rep.assumptions += ["ed25519 and SHA-256 are secure", "harness projection (root table, own note reader, own RFC 6962 reference) is correct",
+                            "TLC evaluates the formulas correctly"] + list(assumptions)
+        if rep.cov["distinct_nontrivial"] < 2:
+            raise Inconclusive("vacuous run: fewer than 2 non-trivial cases were exercised")
+        return rep.finish()
+    return check
+
+
+def judge_chunks(work, rep, c, trace, events, chunk=120000):
+    """Judges the trace in chunks that start at run boundaries (one JVM per chunk)."""
+    if len(events) <= chunk:
+        return judge(work, rep, c, trace)
+    fails = []
+    lines = open(trace).read().splitlines(True)
+    start, part = 0, 0
+    while start < len(lines):
+        end = min(len(lines), start + chunk)
+        while end < len(lines) and not lines[end].startswith('{"e":"reset"'):
+            end += 1
+        p = work.path("chunk%d.ndjson" % part)
+        open(p, "w").writelines(lines[start:end])
+        for f in judge(work, rep, c, p, name="judge%d" % part):
+            f[3] += start
+            fails.append(f)
+        os.remove(p)
+        start = end
+        part += 1
+    return fails
+
+
+# ----------------------------------------------------------------------------- configurations
+
+def H(tier, **kw):
+    """adversarial single-log model: main + fork(s) + junk, every old size, every proof class"""
+    if tier == "quick":
+        c = consts(MaxSize=3, NBranch=2, ForkAt=Sub("Fork_2"), Olds={0, 1, 2, 3, 4})
+    else:
+        c = consts(MaxSize=4, NBranch=3, ForkAt=Sub("Fork_2_0"), Olds={0, 1, 2, 3, 4, 5})
+    c.update(kw)
+    return c
+
+
+def W2(tier, **kw):
+    """several logs; l1 and l2 share one key under different origins (the Rekor-shard situation)"""
+    if tier == "quick":
+        c = consts(Logs={"l1", "l2"}, MaxSize=1, NBranch=1, ForkAt=Sub("Fork_2"), Olds={0, 1, 2}, BadKinds={"random"},
+                   BadAuths={"badsig", "peercp"})
+    else:
+        c = consts(Logs={"l1", "l2", "l3"}, MaxSize=1, NBranch=1, ForkAt=Sub("Fork_2"), Olds={0, 1, 2}, BadKinds={"random"},
+                   BadAuths={"badsig", "peercp"})
+    c.update(kw)
+    return c
+
+
+KEYOF = {"l1": "shared", "l2": "shared", "l3": "own3"}
+
+
+def PAD(tier, nwit, **kw):
+    """note shapes: extra unknown signature lines up to the format limit, stale witness lines, extension lines"""
+    c = consts(MaxSize=2, NBranch=1, ForkAt=Sub("Fork_2"), Olds={0, 1, 2}, NWitKeys=nwit, MaxLines=6,
+               Extras={0, 1, 6 - nwit - 1, 6 - nwit, 5, 6}, Stales={0, 1}, Exts={0, 1}, BadKinds={"random"}, BadAuths={"badsig"}, WithUnknown=False)
+    c.update(kw)
+    return c
+
+
+def DEC(ms, **kw):
     c = consts(MaxSize=ms, NBranch=2, ForkAt=Sub("Fork_2"), Olds=set(range(ms + 2)), BadAuths={"badsig"}, WithUnknown=True)
-    r, edges = model_check(work, rep, "MC_Decision(0..%d)" % ms, c, spec="SpecAny")
-    runs = runs_from_edges(edges, c["NWitKeys"])
-    trace, runs_path = execute(work, rep, c, runs, stores, embeds, seed, tag="dec")
-    fails = judge(work, rep, c, trace)
-    events = index_trace(trace)
-    count_events(rep, events, NONTRIVIAL_STORED)
-    settle(rep, "C09", fails, events, c)
-    finish_counts(rep)
-    rep.cov["rule"] = ("every transition of the one-step model MC_Decision (all stored values x all requests of the menu) is executed on a real witness "
-                       "from its pre-state; distinct = distinct (pre-state, request, verdict) triples with a well-signed request for a known log")
-    rep.cov["exhaustive"] = True
-    rep.cov["embeddings"] = embeds
-    rep.cov["stores"] = stores
-    for e in events[1:4]:
-        rep.sample(e)
-    rep.assumptions += ["ed25519/SHA-256 are secure", "harness projection (root table, note reader) is correct", "TLC"]
-    return rep.finish()
+    c.update(kw)
+    return c
 
 
-CHECKS["C09"] = c09
+Q_EMB, T_EMB = ("id", "pow2"), ("id", "pow2", "mixed", "huge")
+Q_ST, T_ST = ("inmem", "sqlmem"), ("inmem", "sqlmem", "sqlfile")
+want_accept = lambda e: e["act"].get("v") == "Accept"
+
+# ----------------------------------------------------------------------------- C01
+
+def c01_plans(tier):
+    if tier == "quick":
+        return [Plan("MC_Witness(hist,0..3)", H(tier), nwalks=300, depth=25, stores=Q_ST, embeds=("id", "huge"), want=want_accept)]
+    return [Plan("MC_Witness(hist,0..4,2 forks)", H(tier), nwalks=3000, depth=40, stores=T_ST, embeds=T_EMB, want=want_accept)]
+
+
+CHECKS["C01"] = make_check("C01", c01_plans,
+    "every transition of the bounded adversarial model (forked and junk roots, every old size, empty/genuine/replayed/mutated proofs) executed from its "
+    "pre-state, plus random walks over the emitted transition graph; judged by AppendOnly and ChainOK on the observed stored values and cosigned outputs; "
+    "distinct = distinct (pre-state, well-signed request, verdict)", good_known)
+
+# ----------------------------------------------------------------------------- C09
+
+def c09_plans(tier):
+    if tier == "quick":
+        return [Plan("MC_Decision(0..5)", DEC(5), spec="SpecAny", stores=("inmem",), embeds=("id", "huge"))]
+    return [Plan("MC_Decision(0..17)", DEC(17), spec="SpecAny", stores=("inmem",), embeds=("id",)),
+            Plan("MC_Decision(0..6)", DEC(6), spec="SpecAny", stores=("inmem", "sqlmem"), embeds=("pow2", "mixed", "huge"))]
+
+
+CHECKS["C09"] = make_check("C09", c09_plans,
+    "every transition of the one-step model MC_Decision (every stored value x every request of the menu: (stored, submitted, old) cubed x same/forked/junk root x "
+    "empty/genuine/replayed/mutated proofs) executed on a real witness from its pre-state; verdict and returned bytes judged by FirstMatch = SpecVerdict; "
+    "the reference RFC 6962 verifier is run on the concrete proof bytes (three-way agreement); distinct = distinct (pre-state, well-signed request, verdict)", good_known)
+
+# ----------------------------------------------------------------------------- C03
+
+def c03_plans(tier):
+    ps = [Plan("MC_Witness(hist)", H(tier, BadAuths=ALL_AUTH), nwalks=100, depth=20, stores=Q_ST if tier == "quick" else T_ST,
+               embeds=Q_EMB if tier == "quick" else T_EMB),
+          Plan("MC_Witness2(shared key)", W2(tier, BadAuths=ALL_AUTH), keyof=KEYOF, stores=("inmem", "sqlfile"), embeds=("id",), max_edges=None if tier != "quick" else 20000)]
+    if tier != "quick":
+        ps.append(Plan("MC_Witness(pad)", PAD(tier, 2), stores=("inmem", "sqlmem"), embeds=("id",)))
+    return ps
+
+
+CHECKS["C03"] = make_check("C03", c03_plans,
+    "every refusal transition of the bounded models (unknown log, every bad-signature rendering class, old size too large, stale, root mismatch, invalid proof, "
+    "non-empty proof at size zero, over-long notes) executed from its pre-state; raw bytes of every log's checkpoint and the log list compared before/after; "
+    "returned bytes classified nil/prev/new/other; storage-failure refusals are exercised by C07's fault runs; distinct = distinct (pre-state, request, verdict) with a refusal", refusal)
+
+# ----------------------------------------------------------------------------- C02
+
+def c02_plans(tier):
+    ps = [Plan("MC_Witness2(shared key)", W2(tier, BadAuths=ALL_AUTH), keyof=KEYOF, stores=("inmem", "sqlmem"), embeds=("id", "pow2"), nwalks=200, depth=15,
+               max_edges=None if tier != "quick" else 30000),
+          Plan("MC_Witness(hist)", H("quick", BadAuths=ALL_AUTH, BadKinds={"random"}), stores=("inmem",), embeds=("id",) if tier == "quick" else T_EMB)]
+    return ps
+
+
+CHECKS["C02"] = make_check("C02", c02_plans,
+    "all authenticity classes (bit flips in signature / key hash, text edited after signing, unknown key incl. same key name, valid checkpoint of another configured log "
+    "with another key or the SAME key under another origin, no/truncated signature block, garbage) x all states of the bounded models x every log id incl. an unknown one; "
+    "renderings chosen by seed; judged by Authentic on verdict, returned bytes and stored state; distinct = distinct (pre-state, request, verdict) of update steps", any_update)
+
+# ----------------------------------------------------------------------------- C04
+
+def wait_runs(c, g, rng):
+    """refresh / growth after the wall clock has moved to the next second: the cosignature must be fresh"""
+    runs = []
+    mk = lambda old, n, pf, e=0, s=0, x=0: {"op": "update", "log": "l1", "req": {"auth": "good", "old": old, "b": 0, "n": n, "extra": e, "stale": s, "ext": x, "pf": pf}}
+    E = {"k": "empty"}
+    for j in range(6):
+        st = [mk(0, 1, E, x=j % 2), dict(mk(1, 1, E, x=j % 2), wait=True), {"op": "get", "log": "l1"}]
+        if j % 3 == 0:
+            st += [dict(mk(1, 2, {"k": "right", "b": 0, "m": 1, "n": 2}), wait=True), {"op": "get", "log": "l1"}]
+        if j % 3 == 1:
+            st = [mk(0, 1, E, s=1)] + st[1:]
+        runs.append({"id": "fresh%d" % j, "steps": st})
+    return runs
+
+
+def c04_plans(tier):
+    st = Q_ST if tier == "quick" else T_ST
+    ps = [Plan("MC_Witness(pad,2 keys)", PAD(tier, 2), stores=st, embeds=("id",), http=True, extra_runs=wait_runs, nwalks=100, depth=12, reads=True, want=want_accept),
+          Plan("MC_Witness(pad,1 key)", PAD(tier, 1), stores=("inmem",), embeds=("id",) if tier == "quick" else ("id", "huge"), http=False, nwalks=50, depth=12, reads=True, want=want_accept)]
+    if tier != "quick":
+        ps.append(Plan("MC_Witness(hist)", H("quick"), stores=("sqlfile",), embeds=("pow2",), http=True, nwalks=300, depth=20, reads=True, want=want_accept, edges=False))
+    return ps
+
+
+CHECKS["C04"] = make_check("C04", c04_plans,
+    "every accept transition (first use, growth, same-size refresh) x note shapes (extension lines, 0/1/up-to-the-limit unknown signature lines, stale or forged lines "
+    "under the witness' own key ids) x witness key sets {cosignature/v1} and {legacy Ed25519, cosignature/v1}; each returned note is re-verified by the harness' own "
+    "ed25519 code (text identical, log signature, exactly one valid line per witness key, none forged, timestamp inside the call window, read-after-update identical, also over HTTP GET); "
+    "refreshes after a forced one-second wait make a short-circuited refresh observable; distinct = distinct accepted (pre-state, request)", accept)
+
+# ----------------------------------------------------------------------------- C08
+
+def c08_plans(tier):
+    if tier == "quick":
+        c = consts(MaxSize=3, NBranch=2, ForkAt=Sub("Fork_2"), Olds={0, 1, 2, 3, 4}, Extras={0, 1, 3, 4, 5, 6}, Exts={0, 1}, BadKinds={"random", "flip"}, BadAuths={"badsig"})
+        return [Plan("MC_Witness(all states)", c, edges=False, probes=True, nwalks=150, depth=30, stores=("inmem", "sqlmem"), embeds=("id", "pow2")),
+                Plan("MC_Witness(all states of the unguarded design)", dict(c, PadGuard=False, MaxSize=2, Olds={0, 1, 2, 3}), edges=False, probes=True, nwalks=20, depth=10, stores=("inmem",), embeds=("id",))]
+    c = consts(MaxSize=4, NBranch=3, ForkAt=Sub("Fork_2_0"), Olds={0, 1, 2, 3, 4, 5}, Extras={0, 1, 3, 4, 5, 6}, Stales={0, 1}, Exts={0, 1}, BadKinds={"random", "flip"}, BadAuths={"badsig"})
+    return [Plan("MC_Witness(all states)", c, edges=False, probes=True, nwalks=1500, depth=40, stores=T_ST, embeds=T_EMB),
+            Plan("MC_Witness(all states of the unguarded design)", dict(c, PadGuard=False), edges=False, probes=True, nwalks=100, depth=20, stores=("inmem", "sqlfile"), embeds=("id", "huge"))]
+
+
+CHECKS["C08"] = make_check("C08", c08_plans,
+    "shortest path to EVERY reachable state of the bounded model (states reached through refused forgeries, padded / extended notes, a first checkpoint of size 0) and random walks, "
+    "each followed by the honest request (old = stored size, genuine/empty proof, one signature line) for every size >= stored; judged by HonestProgress; "
+    "distinct = distinct (pre-state, honest probe)", lambda e: e.get("e") == "update" and e.get("req", {}).get("auth") == "good" and e.get("req", {}).get("extra") == 0)
+
+# ----------------------------------------------------------------------------- C12 (isolation half; identity half is in checks_omni)
+# ----------------------------------------------------------------------------- C16
+# ----------------------------------------------------------------------------- C20
+
+def c20_plans(tier):
+    if tier == "quick":
+        return [Plan("MC_Decision(0..4)", DEC(4), spec="SpecAny", stores=("inmem",), embeds=("id",)),
+                Plan("MC_Witness2(shared key)", W2(tier), keyof=KEYOF, edges=False, nwalks=300, depth=30, stores=("inmem", "sqlmem"), embeds=("id",))]
+    return [Plan("MC_Decision(0..8)", DEC(8), spec="SpecAny", stores=("inmem", "sqlmem"), embeds=("id", "mixed")),
+            Plan("MC_Witness2(3 logs)", W2(tier), keyof=KEYOF, edges=False, nwalks=3000, depth=40, stores=T_ST, embeds=("id", "pow2")),
+            Plan("MC_Witness(hist)", H(tier), nwalks=500, depth=40, stores=("inmem",), embeds=("id",))]
+
+
+CHECKS["C20"] = make_check("C20", c20_plans,
+    "the C09 decision-table transitions and random multi-log histories of mixed verdicts; a recording MetricFactory (installed before the first witness.New in a dedicated "
+    "process) is read after every step for every log and judged by CountersTrue (attempt, success, invalid-consistency, inconsistent-checkpoints; nothing else moves); "
+    "distinct = distinct (pre-state, request, verdict) of update steps", any_update)
